@@ -171,20 +171,36 @@ class Mod:
                 self.imports[a.asname or a.name] = f"{base}.{a.name}"
 
     # -- lookups ----------------------------------------------------------
+    def _imported_func(self, qualname: str):
+        """a module-level function that this module imports from another module of the package (a helper that was
+        moved and imported back is still the same anchor)"""
+        repo = getattr(self, "repo", None)
+        if repo is None or "." in qualname:
+            return None
+        q = self.imports.get(qualname)
+        if not q or not q.startswith(PKG + "."):
+            return None
+        modname, _, name = q.rpartition(".")
+        rel = modname.replace(".", "/") + ".py"
+        if rel in repo.sources and rel != self.rel:
+            other = repo.mod(rel)
+            return other.funcs.get(name)
+        return None
+
     def func(self, qualname: str) -> FuncInfo:
-        fs = self.funcs.get(qualname)
+        fs = self.funcs.get(qualname) or self._imported_func(qualname)
         if not fs:
             raise AnalysisError(f"anchor-missing function {self.rel}:{qualname}")
         return fs[0]
 
     def all_funcs(self, qualname: str) -> list[FuncInfo]:
-        fs = self.funcs.get(qualname)
+        fs = self.funcs.get(qualname) or self._imported_func(qualname)
         if not fs:
             raise AnalysisError(f"anchor-missing function {self.rel}:{qualname}")
         return fs
 
     def has_func(self, qualname):
-        return qualname in self.funcs
+        return qualname in self.funcs or bool(self._imported_func(qualname))
 
     def assign(self, name: str) -> ast.AST:
         v = self.assigns.get(name)
@@ -285,6 +301,7 @@ class Repo:
             if rel not in self.sources:
                 raise AnalysisError(f"anchor-missing module {rel}")
             self._mods[rel] = Mod(rel, self.sources[rel])
+            self._mods[rel].repo = self
         return self._mods[rel]
 
     def mods(self, only_anchor=True):
